@@ -715,9 +715,10 @@ func TestVerifC12Fsm(t *testing.T) {
 	rep := kit.NewReport("C12", "fsm")
 	defer rep.Write()
 	c12InstallHook()
-	rep.SetRule("seeded valid committed histories (6..20 operations: create/delete/re-create streams with 1..3 partitions, create group, join, leave/expire, change coordinator; 1..2 groups, <= 4 members, <= 4 streams) applied through the real Server.apply with Raft indexes as epochs to three never-started servers: x and z wait for the asynchronous StreamDeleted notification after every operation, y holds it at hook meta.streamDeletedAsync for the next 1..3 operations (biased to joins/leaves of the affected group) and then lets it through; at every quiescent point: C12 oracle on every group of every server, GetConsumerGroupAssignments on the coordinator == state, x == z and x == y (assignments and epoch) at the same history position; non-trivial = a deletion of a stream with subscribers was held on y while a later operation of an affected group was applied; distinct = history text")
+	rep.SetRule("seeded valid committed histories (6..20 operations: create/delete/re-create streams with 1..3 partitions, create group, join, leave/expire, change coordinator; 1..2 groups, <= 4 members, <= 4 streams) applied through the real Server.apply with Raft indexes as epochs to three never-started servers: x and z wait for the asynchronous StreamDeleted notification after every operation, y holds it at hook meta.streamDeletedAsync for the next 1..3 operations (biased to joins/leaves of the affected group) and then lets it through; two restarted incarnations of x (same server id): r applies a seeded prefix (every third history: all of it) with recovered=true and then finishedRecovery, the rest live; p Restores a Snapshot+Persist of x taken at a seeded split, replays nothing (startRecovered) or a seeded part of the suffix with recovered=true (finishedRecovery), the rest live; at every quiescent point: C12 oracle on every group of every server, GetConsumerGroupAssignments on the coordinator == state, x == z and x == y (assignments and epoch) at the same history position, and from the moment their groups are started x == r and x == p (assignments and epoch; p is no longer compared once its multi-stream assignments differed, only its epoch and the single-server oracle); non-trivial = a deletion of a stream with subscribers was held on y while a later operation of an affected group was applied, or a restarted server started a group in which a member subscribed to >= 2 streams shares one with another member; distinct = history text")
 	rep.Assume("servers whose id is no replica need no NATS/Raft: Server.apply is the function the real FSM calls for every committed entry; holding the notification goroutine is a schedule of the real server (the goroutine is started by apply and not awaited)")
 	rep.Assume("transient states while a notification is still held are not judged; only states after all started goroutines finished")
+	rep.Assume("a restarted server is judged from the moment Server.finishedRecovery / startRecovered has started its groups (before that it hands out nothing); the InstallSnapshot path of a RUNNING follower (Restore without any later start of the restored groups) is not driven")
 	root := kit.NewRNG(kit.Mix(kit.Seed(), 0xC12F))
 	n := kit.EnvInt("VERIF_C12_FSM_N", kit.Scale(400, 4000))
 	seeds := make([]uint64, n)
